@@ -3,9 +3,10 @@ package drive
 import (
 	"fmt"
 	"os"
-	"strings"
 	"strconv"
+	"strings"
 	"testing"
+	"testing/synctest"
 )
 
 func envOr(k, d string) string {
@@ -13,6 +14,24 @@ func envOr(k, d string) string {
 		return v
 	}
 	return d
+}
+
+func envInt(k string, d int) int {
+	if v, err := strconv.Atoi(os.Getenv(k)); err == nil {
+		return v
+	}
+	return d
+}
+
+func safely(f func(string) string) func(string) string {
+	return func(op string) (obs string) {
+		defer func() {
+			if p := recover(); p != nil {
+				obs = fmt.Sprintf("panic %v", p)
+			}
+		}()
+		return f(op)
+	}
 }
 
 // TestDrive is the single entry point: FZ_DRIVER selects the driver, FZ_OPS / FZ_OBS the output files.
@@ -29,28 +48,73 @@ func TestDrive(t *testing.T) {
 	}
 	defer e.Close()
 	r := NewRand(seed)
-	e.Exec = func(op string) (obs string) {
-		defer func() {
-			if p := recover(); p != nil {
-				obs = fmt.Sprintf("panic %v", p)
-			}
-		}()
-		return execPure(strings.Split(op, "\t"))
-	}
+	stateful := driver == "hist"
+
 	if rp := os.Getenv("FZ_REPLAY"); rp != "" {
 		// replay mode: execute the op lines of an existing file instead of generating
 		data, err := os.ReadFile(rp)
 		if err != nil {
 			t.Fatal(err)
 		}
-		for _, line := range strings.Split(strings.TrimRight(string(data), "\n"), "\n") {
-			e.Do(line)
+		lines := strings.Split(strings.TrimRight(string(data), "\n"), "\n")
+		if !stateful {
+			e.Exec = safely(func(op string) string { return execPure(strings.Split(op, "\t")) })
+			for _, line := range lines {
+				e.Do(line)
+			}
+			return
 		}
+		// split into histories at "reset"
+		var cur []string
+		flush := func() {
+			if cur == nil {
+				return
+			}
+			ops := cur
+			synctest.Test(t, func(t *testing.T) {
+				h := newHist()
+				e.Exec = safely(func(op string) string { return h.names.rewrite(h.exec(op)) })
+				for _, op := range ops {
+					e.Do(op)
+				}
+			})
+			cur = nil
+		}
+		for _, line := range lines {
+			if line == "reset" {
+				flush()
+				e.Case("reset", "reset")
+				cur = []string{}
+				continue
+			}
+			if cur == nil {
+				cur = []string{}
+			}
+			cur = append(cur, line)
+		}
+		flush()
 		return
 	}
+
 	switch driver {
 	case "scope":
+		e.Exec = safely(func(op string) string { return execPure(strings.Split(op, "\t")) })
 		ScopeCases(e, r, tier)
+	case "hist":
+		nh := envInt("FZ_HISTORIES", 40)
+		if tier == "thorough" {
+			nh = envInt("FZ_HISTORIES", 600)
+		}
+		hlen := envInt("FZ_HISTLEN", 90)
+		for i := 0; i < nh; i++ {
+			e.Case("reset", "reset")
+			synctest.Test(t, func(t *testing.T) {
+				h := newHist()
+				e.Exec = safely(func(op string) string { return h.names.rewrite(h.exec(op)) })
+				g := &gen{r: r, e: e, bias: os.Getenv("FZ_BIAS")}
+				g.History(hlen)
+			})
+		}
 	default:
 		t.Fatalf("unknown driver %q", driver)
 	}
